@@ -576,6 +576,12 @@ func c15Signed(ctx *Ctx, i int, rng *rand.Rand) {
 		{"c1", "vipnode_update", pool.UpdateRequest{Peers: []string{""}, BlockNumber: ^uint64(0)}},
 		{"h2", "vipnode_connect", pool.ConnectRequest{NodeInfo: ethnode.UserAgent{IsFullNode: true}, NodeURI: "enode://@"}},
 		{"h2", "vipnode_connect", pool.ConnectRequest{NodeInfo: ethnode.UserAgent{IsFullNode: true}, NodeURI: "%zz"}},
+		// enumerations and counters decoded straight from the wire, outside their declared range
+		{"c1", "vipnode_connect", pool.ConnectRequest{NodeInfo: ethnode.UserAgent{Kind: ethnode.NodeKind(99)}}},
+		{"c1", "vipnode_connect", pool.ConnectRequest{NodeInfo: ethnode.UserAgent{Kind: ethnode.NodeKind(-1)}}},
+		{"c1", "vipnode_connect", pool.ConnectRequest{NodeInfo: ethnode.UserAgent{Kind: ethnode.NodeKind(4)}}},
+		{"h2", "vipnode_connect", pool.ConnectRequest{NodeInfo: ethnode.UserAgent{Kind: ethnode.NodeKind(1 << 40), IsFullNode: true}, NodeURI: "enode://" + nodeIDOf("h2") + "@10.0.0.2:30303"}},
+		{"c1", "vipnode_peer", pool.PeerRequest{Num: -1 << 62}}, {"c1", "vipnode_client", pool.ClientRequest{NumHosts: 1 << 40}},
 		{"h2", "vipnode_host", pool.HostRequest{Kind: strings.Repeat("k", 5000), NodeURI: "enode://" + nodeIDOf("h2") + "@[fe80::1%25eth0]:1"}},
 	}
 	for k, o := range odd {
